@@ -201,7 +201,19 @@ func runC03(c *Ctx) {
 				}
 			}
 		}
-		c.Ob("C03-R2", "reorg: each new-chain block is inserted and its lookup entries written in the same iteration", c.FnPos(rg), good, d)
+		if good {
+			if p, isPhi := indexPhiOfArg(ins.Common().Args[1]); isPhi {
+				okExit, why := loopExitsAfter(p.Block(), ins)
+				if !okExit {
+					good = false
+					d += "; " + why
+				}
+			} else {
+				good = false
+				d += "; insert's argument is not indexed by the loop variable"
+			}
+		}
+		c.Ob("C03-R2", "reorg: each new-chain block (the new head included) is inserted and its lookup entries written in the same iteration; the loop is left early only after the insert", c.FnPos(rg), good, d)
 		c.Ob("C03-R2", "reorg: the new chain is applied oldest block first (index from len-1 down)", c.FnPos(rg), okOrder, "")
 		for _, s := range callSites(rg, `^core\.DeleteTxLookupEntry$`) {
 			t := f.tr.term(nil, s.Common().Args[1], 0)
@@ -308,8 +320,27 @@ func runC03(c *Ctx) {
 			}
 		}
 		c.Ob("C03-R3", "HeaderChain.SetHead deletes the number entries from the old height down to head+1", c.FnPos(sh), okS, d)
+		// WriteHeader re-points the stale assignments below the new header by walking its ancestors downwards; the walk
+		// ends only at a height already mapped to the walked ancestor (an unassigned height in between is a gap to fill,
+		// not the end: header chains overtake total difficulty several heights above the old head)
+		wh := c.Fn("core:(*HeaderChain).WriteHeader")
+		c.MustBefore("C03-R3", wh, `^core\.WriteHeadHeaderHash$`, 1, []LitReq{
+			{Name: "the ancestor walk ends only where the number already maps to the walked ancestor", Re: `^core\.GetCanonicalHash\(HeaderChain#0\.chainDb, ` + PH + `\) == ` + PH + `$`},
+		})
+		for _, s := range callSites(wh, `^core\.WriteCanonicalHash$`) {
+			a := s.Common().Args
+			ph, isPhi := stripConvAll(a[1]).(*ssa.Phi)
+			if !isPhi {
+				continue // the header's own entry (C03-R1)
+			}
+			pn, _ := stripConvAll(a[2]).(*ssa.Phi)
+			ih, sh, ok1 := phiEntryBack(c, wh, ph)
+			in, sn, ok2 := phiEntryBack(c, wh, pn)
+			ok := ok1 && ok2 && ih == "Header#0.ParentHash" && in == "(Header#0.Number.Uint64() - 1)" && strings.HasSuffix(sh, ".ParentHash") && strings.HasSuffix(sn, ".Number.Uint64() - 1)")
+			c.Ob("C03-R3", "WriteHeader: the walk starts at the parent and steps to (ParentHash, Number-1) of the walked header", c.Position(s.Pos()), ok, fmt.Sprintf("hash: %s -> %s; number: %s -> %s", ih, sh, in, sn))
+		}
 	})
-	c.Min("C03-R3", 6)
+	c.Min("C03-R3", 8)
 
 	c.Rule("C03-R4", "rewind deletes header, TD and number of every unwound height and re-derives the head pointers", func() {
 		sh := c.Fn("core:(*HeaderChain).SetHead")
@@ -380,7 +411,7 @@ func runC03(c *Ctx) {
 	c.Rule("C03-R5", "a block written with state always has body and receipts written; canonical blocks get lookup entries", func() {
 		wbs := c.Fn("core:(*BlockChain).WriteBlockWithState")
 		batch := `BlockChain#0\.db\.NewBatch\(\)`
-		ff := c.FactsFocus(wbs, `WriteBlock|WriteBlockReceipts|WriteTxLookupEntries|WriteTd|\.Write\(\)|status|CanonStatTy|== nil$|!= nil$|^nil [!=]=`, false)
+		ff := c.FactsFocus(wbs, `WriteBlock|WriteBlockReceipts|WriteTxLookupEntries|WriteTd|\.Write\(\)|status|CanonStatTy|== nil$|!= nil$|^nil [!=]=|\.insert\(`, false)
 		var acc []*pstate
 		for _, rs := range ff.AcceptingReturns(-1, false) {
 			acc = append(acc, rs.State)
@@ -398,6 +429,19 @@ func runC03(c *Ctx) {
 		c.mustStates("C03-R5", wbs, "call of insert", ins, []LitReq{
 			{Name: "a block that becomes head has its transaction lookup entries written", Re: `^core\.WriteTxLookupEntries\(` + batch + `, Block#0\) == nil$`},
 		})
+		// and only such a block: a side block's transactions must not resolve (or re-point a transaction that is also
+		// mined canonically) – on every accepting path that wrote lookup entries the block is then made head
+		lkRe := mustRe(`^core\.WriteTxLookupEntries\(` + batch + `, Block#0\) == nil$`)
+		nlk, okOnly := 0, true
+		for _, st := range acc {
+			if _, has := hasLit(st, lkRe); has {
+				nlk++
+				if !st.lits["called:BlockChain#0.insert(Block#0)"] {
+					okOnly = false
+				}
+			}
+		}
+		c.Ob("C03-R5", "WriteBlockWithState writes lookup entries only for a block it then makes head", c.FnPos(wbs), okOnly && nlk > 0, fmt.Sprintf("%d accepting path states wrote lookup entries", nlk))
 	})
 	c.Min("C03-R5", 5)
 
@@ -475,4 +519,27 @@ func c03DiffArgs(fn *ssa.Function, vc *valueClasses, dropped, added []ssa.Value)
 		}
 	}
 	return n > 0
+}
+
+// indexPhiOfArg: the loop phi indexing X[phi] (through the element load).
+func indexPhiOfArg(v ssa.Value) (*ssa.Phi, bool) {
+	_, idx := indexBase(v)
+	p, ok := idx.(*ssa.Phi)
+	return p, ok
+}
+
+// phiEntryBack: for a two-edge loop phi, the value on the edge entering the loop and the value on the back edge
+// (told apart by dominance, so the step need not mention the phi itself).
+func phiEntryBack(c *Ctx, fn *ssa.Function, p *ssa.Phi) (entry, back string, ok bool) {
+	if p == nil || len(p.Edges) != 2 {
+		return "", "", false
+	}
+	b := p.Block()
+	tr := c.Facts(fn).tr
+	for i := 0; i < 2; i++ {
+		if b.Dominates(b.Preds[i]) && !b.Dominates(b.Preds[1-i]) {
+			return tr.term(nil, p.Edges[1-i], 0), tr.term(nil, p.Edges[i], 0), true
+		}
+	}
+	return "", "", false
 }
